@@ -23,31 +23,39 @@ DRIVER = "dm_graph"
 LEAN_MODULES = ["DaskModel.Props.C08"]
 TABLES = ["TaskSpecSlots"]
 LEVEL_TEXT = ("Lean 4 theorems over a transliteration of convert_legacy_task/convert_legacy_graph, Task.__call__/_eval, "
-              "NestedContainer evaluation and the statement's legacy semantics, with user functions uninterpreted. Proved for all "
-              "objects/graphs/environments: convert_preserves_eval_partial + convertGraph_preserves_eval_partial (conversion + "
-              "execution = legacy value whenever no dict value and no element of a non-task tuple needs evaluation: hypothesis "
-              "`clean`), deps_exact (a node's dependencies are sufficient and each is necessary for its evaluation, through "
-              "nested containers/kwargs), deps_exact_legacy_partial (clean => node.dependencies = get_dependencies). The statement at full strength is REFUTED for the code as it is by two witnesses that "
-              "replay on /repo (known findings): dict values are not evaluated; non-task tuples are evaluated elementwise; the "
-              "same witnesses separate node.dependencies from get_dependencies. Pickling: task_pickle_roundtrip / "
+              "NestedContainer evaluation, execute_graph as it runs, and the statement's legacy semantics, with user functions "
+              "uninterpreted. PROVED for all objects/graphs/environments: convert_preserves_eval_partial + "
+              "convertGraph_preserves_eval_partial (conversion + execution = legacy value whenever no element of a non-task, "
+              "non-key tuple needs evaluation: hypothesis `clean`; dict values are evaluated at any depth since the fix ca6daad), "
+              "deps_exact (a node's dependencies are sufficient and each is necessary for its evaluation, through nested "
+              "containers/kwargs), deps_exact_legacy_partial (clean => node.dependencies = get_dependencies, same list), "
+              "execute_graph_operational (the cache filled in an order with dependencies first -- what order() returns, C06 -- "
+              "with refcount[dep] -= 1 / del cache[dep]: everything in the returned cache is the denotational value of its key, "
+              "every key that may not be deleted is in it, and if every key has a value the run never fails: no node finds a "
+              "dependency already deleted, no del hits a missing key). The statement at full strength is REFUTED for the code as "
+              "it is by one witness that replays on /repo (known finding): non-task tuples are evaluated elementwise; the same "
+              "witness separates node.dependencies from get_dependencies. Pickling: task_pickle_roundtrip / "
               "container_pickle_roundtrip (slot lists extracted from the AST on every run; every slot, in particular "
               "_dependencies/func/args/kwargs, is restored; the dropped `constructor` kwarg is restored from the class), "
-              "alias_pickle_roundtrip; Alias(key, target) keeps an explicit target whatever its truth value (aliasInit).")
+              "alias_pickle_roundtrip; Alias(key, target) keeps an explicit target whatever its truth value (aliasInit). "
+              "VALIDATED ONLY: namedtuples, futures, sets/frozensets in legacy graphs; that order() is a valid order is C06.")
 LEVEL_NOTE = ("Trusted: Lean kernel + standard axioms; the hand transliteration, tied on every run by (a) structural diff of the "
               "real converted graph against the model's, (b) dask.core.get vs the model's coreGet on every key, (c) the legacy "
               "semantics computed by Lean and by an independent Python interpreter, (d) node.dependencies / get_dependencies vs "
-              "the model, (e) task-spec object graphs through node(values) and execute_graph, (f) real pickle round trips. "
-              "execute_graph's evaluation order is dask.order's (C06). Fixed in /repo: dask.core.get rejected single int/tuple keys.")
-TECHNIQUE = "Lean 4 proof (mutual structural induction over legacy terms / task nodes) + differential correspondence"
+              "the model, (e) task-spec object graphs through node(values) and execute_graph, incl. the whole returned cache "
+              "after reference-count deletions for several `keys` arguments against the operational model (nodes listed in the "
+              "real order()), (f) real pickle round trips. Fixed in /repo: dask.core.get rejected single int/tuple keys (5af6762); "
+              "dict values of legacy tasks were dependencies but were neither evaluated nor substituted (ca6daad).")
+TECHNIQUE = "Lean 4 proof (mutual structural induction over legacy terms / task nodes; loop invariant with reference counts) + differential correspondence"
 ASSUMPTIONS = ["user functions are pure and total; they are left uninterpreted (free term algebra), so equality of the symbolic "
                "results implies equality under every interpretation",
                "Python objects outside {int, str, None, function, literal(...), tuple, list, dict} are not generated",
-               "execute_graph evaluates in dask.order's order, which is a topological order (C06); the model evaluates by dependency recursion"]
+               "execute_graph_operational assumes the nodes are taken in an order with dependencies first (TopoListed); that "
+               "dask.order.order returns such an order is property C06 (proved checker on every real output)",
+               "the caller's cache holds no key of the graph (dask.core.get passes none)"]
 CASE_TIMEOUT_S = 10
 
-SIG_D1 = "legacy:dict-value-with-reference-or-call:not-evaluated"
 SIG_D2 = "legacy:non-task-tuple-with-reference-or-call:evaluated-elementwise"
-SIG_D12 = "legacy:dict-value-and-non-task-tuple:both-divergences"
 
 
 def _outcome(fn):
@@ -58,11 +66,10 @@ def _outcome(fn):
 
 
 def _classify(dsk, key, impl_v):
-    """Which of the two known divergences from the statement's semantics explains the real outcome `impl_v`
-    (a value or a raise, e.g. a cycle that exists only under one traversal)?  None if neither does."""
-    for flags, sig in (((False, False), SIG_D1), ((True, True), SIG_D2), ((False, True), SIG_D12)):
-        if _outcome(lambda: ref_eval(dsk, key, *flags)) == impl_v:
-            return sig
+    """Does the known divergence from the statement's semantics (non-task tuples are evaluated elementwise) explain the
+    real outcome `impl_v` (a value or a raise, e.g. a cycle that exists only under that traversal)?  None if not."""
+    if _outcome(lambda: ref_eval(dsk, key, True, True)) == impl_v:
+        return SIG_D2
     return None
 
 
@@ -94,7 +101,7 @@ def case_legacy(ctx, inp):
     # evaluate under the statement's traversal and under the code's (no cycle through either); otherwise only the
     # model/implementation diff is made.
     wellformed = all(_outcome(lambda k=build(kj), f=f: ref_eval(dsk, k, *f))[0] == "ok"
-                     for kj, _ in items for f in ((True, False), (False, True)))
+                     for kj, _ in items for f in ((True, False), (True, True)))
     if not wellformed:
         ctx.branch("ill-formed-cyclic")
     for (kj, _), ks in zip(items, keys_s):
@@ -137,7 +144,7 @@ def case_legacy(ctx, inp):
         md = ctx.lean(Sym("deps"), node_sexp(n))
         ctx.eq("node.dependencies", sorted(set(json.dumps(x, default=str) for x in md)),
                sorted(json.dumps(to_sexp(x), default=str) for x in n.dependencies))
-        refs = legacy_refs(dsk, dsk[k], False, True)
+        refs = legacy_refs(dsk, dsk[k], True, True)
         if set(n.dependencies) != refs and type(n).__name__ != "DataNode":
             ctx.fail("converted node's dependencies are not the keys it references", observed=sorted(map(repr, n.dependencies)),
                      expected=sorted(map(repr, refs)))
@@ -276,6 +283,30 @@ def case_spec(ctx, inp):
     else:
         ctx.branch("raises")
     ctx.eq("execute_graph", model, impl)
+    # execute_graph as it runs: nodes in the real `order`, reference counts, deletion of values no longer needed.
+    # The whole returned cache (which keys survive, with which values) against Model/ExecGraph.lean
+    if impl[0] == "ok" and not (set(cache) & set(dsk)):
+        from dask.order import order
+        try:
+            prio = order(dict(dsk))
+        except Exception:
+            prio = None
+        if prio is not None:
+            listed = sorted(dsk.items(), key=lambda it: prio[it[0]])
+            gl = [[to_sexp(k), node_sexp(n)] for k, n in listed]
+            allk = list(dsk)
+            for sel in (None, [], allk[:1], allk[-2:], [allk[len(allk) // 2]] + [("not", "a", "key")]):
+                try:
+                    r = execute_graph(dict(dsk), cache=dict(cache), keys=None if sel is None else set(sel))
+                    impl2 = [Sym("ok"), sorted(([to_sexp(k), to_sexp(v)] for k, v in r.items()), key=repr)]
+                except Exception:
+                    impl2 = [Sym("raised")]
+                m2 = ctx.lean(Sym("exec_ordered"), gl, cs, Sym("nokeys") if sel is None else [to_sexp(k) for k in sel])
+                if m2[0] == "ok":
+                    m2 = [Sym("ok"), sorted(m2[1], key=repr)]
+                ctx.eq("execute_graph: returned cache after reference-count deletions (operational model)", m2, impl2)
+                if impl2[0] == "ok" and sel and len(r) < len(dsk) + len(cache):
+                    ctx.branch("refcount-deletes")
     for k, n in dsk.items():
         md = ctx.lean(Sym("deps"), node_sexp(n))
         ctx.eq("node.dependencies", sorted(set(json.dumps(x, default=str) for x in md)),
